@@ -161,6 +161,102 @@ def run(ctx):
 
     partial_io_rule(ctx, [mpq], "C03", scope=re.compile(r"::compression::"), floor=4)
 
+    # PKWare: (a) the decode loop keeps calling the exploder while it still holds a finished window, even when the input is used up;
+    # (b) the encoder of the `pklib` dependency is only handed blocks it can encode (it never slides its 8708-byte work buffer)
+    R_pkw = ctx.rule("C03.pkware-decoder-drains-pending-window", "pkware::decompress's loop condition is true in the state (not ended, input consumed, window pending, output incomplete)", floor=1)
+    R_pkl = ctx.rule("C03.pkware-encoder-input-bounded", "every call of pklib::implode_bytes is dominated by a comparison of the input length with a constant <= 8708", floor=1)
+    from .c10 import _bval, _NoEval
+    pd = next((f for f in mpq.fn_list if f.hir and f.kind != "Closure" and norm(f.path).endswith("compression::algorithms::pkware::decompress")), None)
+    if pd is None:
+        ctx.bad(R_pkw, "pkware::decompress|missing", "-", "function not found", "anchor gone")
+    else:
+        ctx.saw_fn(pd)
+        lp = next((l for l in hirq.find(pd.hir["body"], "loop") if any((c_.get("fn") or "").endswith("explode_block") or c_.get("m") == "explode_block" for c_ in hirq.walk(l) if c_.get("k") in ("call", "mcall"))), None)
+        cond = None
+        if lp is not None:
+            first = hirq.strip(lp["body"])
+            first = first if first.get("k") == "if" else next((x for x in (first.get("stmts") or []) + ([first.get("e")] if first.get("e") else []) if isinstance(x, dict) and hirq.strip(x).get("k") == "if"), None)
+            cond = hirq.strip(first)["c"] if first is not None else None
+        if cond is None:
+            ctx.bad(R_pkw, "pkware::decompress|shape", pd.where, "no `while <cond>` loop around explode_block found", "shape changed")
+        else:
+            def bleaf(r_):
+                if r_.endswith(".ended"):
+                    return False
+                if r_.endswith(".need_swap"):
+                    return True
+                return None
+            try:
+                v = _bval(cond, {"__bleaf__": bleaf, "input_pos": 100, "total_output": 4096, "expected_size": 4097, "__leaf__": (lambda r_: 100 if r_.endswith(".len()") else None)}, {})
+                if v:
+                    ctx.ok(R_pkw, {"loop_condition": hirq.render(cond)[:100]})
+                else:
+                    ctx.bad(R_pkw, "pkware::decompress|stops-with-window-pending", "%s:%d" % (pd.file, lp.get("ln") or 0), "`%s` is false once the input is consumed although the exploder still holds a finished 4096-byte window" % hirq.render(cond)[:90],
+                            "whatever follows a window boundary and fits into the decoder's look-ahead is dropped: a 4097-byte block comes back as 4096 bytes (and the size tolerance of the caller accepts it)")
+            except _NoEval as e:
+                ctx.bad(R_pkw, "pkware::decompress|not-evaluable", pd.where, "loop condition not evaluable: %s" % e, "shape changed")
+    n_imp = 0
+    cg_c = mirg.CallGraph([mpq])
+    live = cg_c.local_reachable([p_ for p_ in cg_c.fns if norm(p_).endswith("compression::compress::compress")])
+    for f in mpq.fn_list:
+        if not f.mir or "::tests::" in f.path or f.path not in live:
+            continue          # (only what the compressor can reach: `compress_with_options` is dead code)
+        for bb, t in mirg.iter_calls(f):
+            if not re.search(r"pklib::(implode_bytes|implode)$", norm(mirg.callee(t) or "")):
+                continue
+            n_imp += 1
+            ctx.saw_fn(f)
+            cfg_ = mirg.Cfg(f)
+            du_ = mirg.DefUse(f)
+            bound = None
+            for i, b in enumerate(f.mir["blocks"]):
+                tt = b["t"]
+                if tt["k"] != "switch" or not cfg_.dominates(i, bb) or i == bb:
+                    continue
+                for _b, k_, p_ in du_.defs.get(mirg.op_local(tt["d"]), []):
+                    if k_ == "assign" and p_[2][0] == "bin" and p_[2][1] in ("Gt", "Ge", "Lt", "Le"):
+                        consts_ = [mirg.op_int(o) for o in (p_[2][2], p_[2][3])]
+                        lens = [o for o in (p_[2][2], p_[2][3]) if mirg.op_local(o) is not None and any(re.search(r"::len$", norm(mirg.callee(c_) or "")) or True for c_ in du_.slice_back(mirg.op_local(o), depth=4)[1])]
+                        cv = next((c_ for c_ in consts_ if c_ is not None), None)
+                        if cv is not None and lens and cv <= 8708 + 1:
+                            bound = cv
+            if bound is not None:
+                ctx.ok(R_pkl, {"fn": f.path.split("::")[-1], "line": t["ln"], "bound": bound})
+            else:
+                ctx.bad(R_pkl, "%s|implode-unbounded" % f.path.split("::")[-1], "%s:%d" % (f.file, t["ln"]), "pklib::implode_bytes is called with no preceding bound on the input length",
+                        "pklib 0.1.0 encodes the first 8708 bytes of a longer block twice and drops the rest: a well-formed stream of the wrong data (a 10000-byte PKWare file reads back wrong from offset 8708)")
+    if n_imp == 0:
+        ctx.ok(R_pkl, {"note": "pklib::implode_bytes is not called"})
+
+    # multi-stage blocks: the size handed to an intermediate decoder is an upper bound (`expected_size * 4`), so that decoder must not
+    # insist on the exact size
+    R_mid = ctx.rule("C03.intermediate-stage-decoder-accepts-a-bound", "every decoder that decompress_multiple_internal calls with a computed bound (`expected_size * k`) does not fail on output length != that argument", floor=2)
+    dm = next((f for f in mpq.fn_list if f.hir and f.kind != "Closure" and norm(f.path).endswith("compression::decompress::decompress_multiple_internal")), None)
+    if dm is None:
+        ctx.bad(R_mid, "decompress_multiple_internal|missing", "-", "function not found", "anchor gone")
+    else:
+        ctx.saw_fn(dm)
+        byp = {f.path: f for f in mpq.fn_list if f.hir and f.kind != "Closure"}
+        for c_ in hirq.calls(dm.hir["body"]):
+            args = c_.get("args") or []
+            bi = next((i for i, a in enumerate(args) if hirq.strip(a).get("k") == "bin" and hirq.strip(a)["op"] == "*" and "expected_size" in hirq.render(a)), None)
+            if bi is None:
+                continue
+            g = byp.get(c_.get("fn"))
+            if g is None:
+                continue
+            pn = [b for p_ in g.hir["params"] for b in hirq.pat_binds(p_)]
+            size_p = pn[bi] if bi < len(pn) else None
+            exact = next((n for n in hirq.find(g.hir["body"], "if") if size_p and any(x.get("k") == "bin" and x["op"] in ("!=", "==") and re.search(r"\b%s\b" % re.escape(size_p), hirq.render(x)) and ".len()" in hirq.render(x) for x in hirq.walk(n["c"])) and
+                          any(x.get("k") == "ret" and "Err" in hirq.render(x.get("e")) for x in hirq.walk(n["then"]))), None)
+            inst = {"stage_decoder": (c_.get("fn") or "").split("::")[-2:] , "bound": hirq.render(args[bi])[:30]}
+            if exact is None:
+                ctx.ok(R_mid, inst)
+            else:
+                ctx.bad(R_mid, "decompress_multiple_internal|%s" % "::".join((c_.get("fn") or "").split("::")[-2:]), "%s:%d" % (dm.file, c_.get("ln") or 0),
+                        "`%s` is given the bound `%s` but fails unless its output is exactly that long (`%s`)" % ("::".join((c_.get("fn") or "").split("::")[-2:]), hirq.render(args[bi])[:30], hirq.render(exact["c"])[:50]),
+                        "every block of that method combination is refused by the decompressor although the compressor produces it")
+
     fns = {norm(f.path): f for f in mpq.fn_list if f.kind != "Closure" and f.hir}
     comp = fns.get(C + "compress::compress")
     if comp is None:
